@@ -433,6 +433,23 @@ def stream_setters(rng, tier):
             yield "hist u full %s %s:%s" % (hx(b), op, hx(v))
     for fam, b, v in [("i", "s://%C3%A9/", "%c3%a9"), ("i", "s://%C3%A9/", "é"), ("i", "s://é/", "%C3%A9")]:
         yield "hist %s ref %s sa:%s" % (fam, hx(b), hx(v))
+    # two and three setters in a row on one buffer: the first shrinks it (spare capacity stays
+    # behind), the next grows it by less than the tail that follows
+    longs = ["http://example.org/a/b?query-part#fragment-part", "http://user:pw@example.org:8080/some/long/path/to/file?k=v&k2=v2#sec",
+             "//example.org/abc/def/ghi?qqqqqqqqqq#ffffffffff", "s:/aaaaaaaaaa/bbbbbbbbbb?cccccccccc#dddddddddd"]
+    shrink = ["sq:" + ohx(None), "sf:" + ohx(None), "sa:" + ohx(None), "sa:" + hx("h"), "sp:" + hx("/"), "sq:" + hx(""), "sf:" + hx("")]
+    grow = ["ss:" + hx("https"), "ss:" + hx("a1"), "sa:" + hx("www.example.org"), "sa:" + hx("u@h:1"), "sp:" + hx("/x/y"),
+            "sp:" + hx("/a/b/c/d/e"), "sq:" + hx("k"), "sq:" + hx("key=value"), "sf:" + hx("s"), "sf:" + hx("section-2")]
+    for b in longs:
+        for o1 in shrink:
+            for o2 in grow:
+                for fam in "ui":
+                    yield "hist %s ref %s %s %s" % (fam, hx(b), o1, o2)
+                    if b.startswith(("http:", "s:")) and not o2.startswith("ss:" + ohx(None)):
+                        yield "hist %s full %s %s %s" % (fam, hx(b), o1, o2)
+            for o2 in rng.sample(grow, 3):
+                for o3 in rng.sample(grow, 2):
+                    yield "hist u ref %s %s %s %s" % (hx(b), o1, o2, o3)
     n = 3000 if tier == "quick" else 100000
     for _ in range(n):
         f = rng.choice("ui")
@@ -516,6 +533,15 @@ def stream_pathmut(rng, tier):
                 yield "hist u path %s pm[%s;%s]" % (hx(p), o1, o2)
                 if tier == "thorough":
                     yield "hist u ref %s pm[%s;%s]" % (hx("//h" + ("/" + p if p and not p.startswith("/") else p)), o1, o2)
+    for p in long_paths():
+        for op in ["norm", "pop", "push:" + hx("z"), "sapp:" + hx("../y"), "norm;pop;norm"]:
+            yield "hist u path %s pm[%s]" % (hx(p), op)
+        if not p.startswith("/"):
+            yield "hist u ref %s pm[norm]" % hx(p + "?q#f")
+            if not p.startswith("a:"):
+                yield "hist i ref %s pm[norm]" % hx("s:" + p)
+        else:
+            yield "hist i ref %s pm[norm]" % hx("s://h" + p + "#f")
     # climbing out of a shielded relative path: the `.` shield left behind by a pop is not a segment
     shielded = [".//x", ".//x/y", "./a:b", "./a:b/c", ".//", "./", ".", "./x", "a", "a/b", "..", "../a"]
     climbs = ["..", "../..", "../../..", "../../../z", "../z", "../../z", "../../../..", "./..", "../."]
@@ -639,7 +665,9 @@ def stream_cmp(rng, tier):
                     yield "cmp %s %s %s %s" % (f, kind, hx(a), hx(b))
     paths = ["", "/", "a", "/a", "a/", "a/.", "a/./", "a/b/..", "a/b/../", "..", "../a", "a/../..",
              "/..", "/a/..", "//", "/./", "./", ".", "a//b", "a/b", "%61", "a/%2E", "a/./b", "/.//a",
-             "//a", "a/../b", "b", "%2e", "a/%2E%2E/..", "%2e%2e/..", "/%2E%2E/../b", "/b", "a/%2E/.."]
+             "//a", "a/../b", "b", "%2e", "a/%2E%2E/..", "%2e%2e/..", "/%2E%2E/../b", "/b", "a/%2E/..",
+             # a segment boundary against an escaped delimiter or control octet inside one segment
+             "a%00b", "a%00a", "a%2Fb", "a%2fb", "/x/a/", "/x/a%00", "a%01b", "a%FFb", "a/%00", "%00/a"]
     for a in paths:
         for b in paths:
             yield "cmp u path %s %s" % (hx(a), hx(b))
@@ -657,6 +685,7 @@ def stream_cmp(rng, tier):
             yield "cmp u ref %s %s" % (hx(a), hx(b))
             yield "cmp u fullref %s %s" % (hx(a), hx(b))
             yield "cmp i full %s %s" % (hx(a), hx(b))
+    refs += ["s:a:b", "s:a%3Ab", "s:./a:b", "s:a:./b", "urn:isbn:1", "urn:isbn%3A1", "urn:./isbn:1", "s:a:b/c", "s:x/../a:b"]
     rels = ["", "a", "./a", "a/b", "/a", "//h", "//h/a", "?q", "#f", "a?q#f", "../a", "a/..", "%61"]
     for a in rels + refs[:8]:
         for b in rels + refs[:8]:
@@ -697,6 +726,17 @@ def stream_cmp(rng, tier):
         yield "hash i query %s" % hx(a)
 
 
+def long_paths():
+    out = []
+    for unit, k in [("seg/", 140), ("s/", 300), ("abcdefgh/", 20), ("x/", 17), ("x/", 16), ("x/", 15)]:
+        body = unit * k
+        for pre in ["", "/", "./", "../", "/./", ".//"]:
+            for suf in ["x", "", ".", "..", "x/.", "x/.."]:
+                out.append(pre + body + suf)
+    out += ["./" + "x" * 600, "x" * 600 + "/.", "/" + "x" * 520, "a/" * 8 + "../" * 8 + "b/" * 17, "a:" + "b/" * 300]
+    return out
+
+
 def stream_paths(rng, tier):
     """C12 and the read-only half of C09"""
     k = 6 if tier == "quick" else 8
@@ -714,6 +754,11 @@ def stream_paths(rng, tier):
             for t in "clz":
                 yield "segs u %s %s" % (hx(p), "".join(sched) + t)
                 yield "segs i %s %s" % (hx(p), "".join(sched) + t)
+    # paths beyond the inline buffers (16 segments, 512 bytes), with at most one dot segment and
+    # that one at either end
+    for p in long_paths():
+        for f in "ui":
+            yield "pathq %s %s" % (f, hx(p))
     n = 3000 if tier == "quick" else 100000
     for _ in range(n):
         f = rng.choice("ui")
@@ -867,13 +912,21 @@ def stream_convert(rng, tier):
 
 def stream_routes(rng, tier):
     """C14: textual routes out of a value (routes in are the `ctor` stream)"""
-    kinds = ["uri", "uriRef", "uriAuthority", "uriUserInfo", "iri", "iriRef", "iriAuthority", "iriUserInfo"]
+    kinds = KINDS_U + KINDS_I
     n = 400 if tier == "quick" else 10000
+    # characters that `str`'s own Debug escapes although an IRI may contain them literally
+    # (combining marks, zero-width and bidi controls, private use, non-characters' neighbours)
+    dbg = ["e\u0301", "\u200b", "\u202e", "\u00ad", "\u0300a", "\ue000", "\U000e0100", "\u2060", "a\u0308\u0301", "\ufeff"]
     for kind in kinds:
-        for _ in range(n):
+        for _ in range(n if kind in ("uri", "uriRef", "iri", "iriRef") else n // 4):
             yield "routes %s %s" % (kind, hx(sample_for_kind(rng, kind)))
         for s in exhaustive("a:/?#\"\\é", 3):
             yield "routes %s %s" % (kind, hx(s))
+        if kind.startswith("iri"):
+            for d in dbg:
+                for base in ["", "a", "/caf", "x/y"]:
+                    yield "routes %s %s" % (kind, hx(base + d))
+                    yield "routes %s %s" % (kind, hx("s://h/" + base + d + "?" + d + "#" + d))
     for kind in KINDS_U + KINDS_I:
         for _ in range(n // 2):
             s = sample_for_kind(rng, kind)
@@ -973,6 +1026,15 @@ def stream_pct(rng, tier):
             yield "pctref i %s" % hx(t.replace("%s", a))
             if "é" not in a:
                 yield "pctref u %s" % hx(t.replace("%s", a))
+    # runs of escapes touching the delimiters on either side (a scanner that steps over an escape
+    # must still look at the byte behind it)
+    esc = ["%41", "%e2%82%ac", "%c3%a9", "%c3%a9%41", "%41%42%43", "%2F", "%3f", "%23", "%25"]
+    for e in esc:
+        for t in ["s://h/p?x=5%s#top", "?%s#f", "p%s?q%s#f%s", "/a%s/b%s?%s", "//u%s@h/%s?%s#%s", "s:%s?%s", "%s#%s", "s://h%s/p",
+                  "s://h/p?%s", "s://h/p#%s", "/x/%s", "/%s/x/../%s"]:
+            for f in "ui":
+                yield "pctref %s %s" % (f, hx(t.replace("%s", e)))
+                yield "parts %s ref %s" % (f, hx(t.replace("%s", e)))
     n = 1500 if tier == "quick" else 60000
     for _ in range(n):
         f = rng.choice("ui")
